@@ -17,7 +17,7 @@ From Coq Require Import List Arith Bool ZArith Lia.
 From PV Require Import Base.Exn Base.Values Base.Ann Model.CheckerCfg Model.Checker Model.GenericInstance
   Model.TypeVarShapeCfg Spec.Conforms Spec.TypeVarSpec Gen.CheckerTables Gen.TypeVarShape
   Proofs.CheckerGood Proofs.CheckerRefine Proofs.CheckerSpec Proofs.CheckerTop
-  Proofs.TypeVarFrame Proofs.TypeVarTC Proofs.TypeVarCall Proofs.TypeVarHistory.
+  Proofs.TypeVarFrame Proofs.TypeVarTC Proofs.TypeVarCall Proofs.TypeVarHistory Proofs.TypeVarSpecLink.
 Import ListNotations.
 
 Definition cfg := Gen.CheckerTables.checker_cfg.
@@ -140,6 +140,27 @@ Proof.
   unfold tv_admits in Ha. apply andb_true_iff in Ha as [_ Ha]. now rewrite Hb in Ha.
 Qed.
 Print Assumptions C07_bound.
+
+(* ---- against the executable specification the harness evaluates (Spec/TypeVarSpec.v) -----------------
+   positions whose TypeVar-free part is in the vocabulary of C01/C02; one TypeVar object per id *)
+Theorem C07_spec_must_accepted : forall ctx sg args ret, well_formed_call sg args -> erased_supported ctx sg ->
+  tvars_by_id (ms_of sg args ret) ->
+  call_spec ctx xenv_none (sig_positions sg) (args ++ [ret]) = Must -> call ctx sg args ret = Ok tt.
+Proof. intros ctx sg args ret. exact (spec_must_accepted cfg good Hub ctx sg args ret). Qed.
+Print Assumptions C07_spec_must_accepted.
+
+Theorem C07_spec_mustnot_rejected : forall ctx sg args ret, well_formed_call sg args -> erased_supported ctx sg ->
+  tvars_by_id (ms_of sg args ret) ->
+  call_spec ctx xenv_none (sig_positions sg) (args ++ [ret]) = MustNot -> call ctx sg args ret <> Ok tt.
+Proof. intros ctx sg args ret. exact (spec_mustnot_rejected cfg good Hub ctx sg args ret). Qed.
+Print Assumptions C07_spec_mustnot_rejected.
+
+Theorem C07_spec_mismatch_kind : forall ctx sg args ret, well_formed_call sg args -> erased_supported ctx sg ->
+  tvars_by_id (ms_of sg args ret) ->
+  must_be_mismatch ctx xenv_none (sig_positions sg) (args ++ [ret]) = true ->
+  exists e, call ctx sg args ret = Raise e /\ derives e PTypeVarMismatchC = true.
+Proof. intros ctx sg args ret. exact (spec_mismatch_kind cfg good Hub Hmh ctx sg args ret). Qed.
+Print Assumptions C07_spec_mismatch_kind.
 
 (* ===================================== instances Cls[X] and histories ================================= *)
 
